@@ -1361,6 +1361,20 @@ func conv(i *interpreter, t_dst, t_src types.Type, x value) value {
 			// To at least preserve type-safety, we'll
 			// just return the zero value of the
 			// destination type.
+			//
+			// gosym: returning the zero value is silently wrong for the one use that
+			// matters here, the round trip *T -> unsafe.Pointer -> *T of sync/atomic's
+			// Pointer[T] (sync.Map sits on it: every Load missed, found when a seeded
+			// change used a sync.Map, DESIGN.md 9.2c). Every pointer of this interpreter
+			// is a *value, so the round trip is the identity. A cast to a different T is
+			// not meaningful, but it no longer passes silently either: the first use of
+			// the cell through the wrong type is a failed type assertion inside the
+			// interpreter, i.e. an engine error on that path.
+			if _, ok := ut_dst.(*types.Pointer); ok {
+				if p, ok := x.(unsafe.Pointer); ok {
+					return (*value)(p)
+				}
+			}
 			return zero(t_dst)
 		}
 
